@@ -1038,3 +1038,88 @@ def rule_l5(P):
     if n_fn < 300:
         raise E5Error(f"L5: only {n_fn} FEA front-end functions seen")
     return findings, obl, {"l5_functions": n_fn, "l5_char_count_sources": n_src}
+
+
+def rule_t4(P):
+    """fea-rs mints name ids >= 256 for featureNames / cvParameters / sizemenuname / STAT names (NameBuilder::add_anon_group) and
+    later shifts all of them past the ids the rest of the font uses (Compilation::remap_name_ids).  Sibling agreement: every field of
+    an output table that receives a minted id must be one that remap_name_ids adjusts; a field it forgets keeps pointing at the old
+    id - a name record that no longer exists (or someone else's)."""
+    from common import norm_fn
+    findings, obl = [], []
+    remap = [k for k in P.bodies if k.startswith("fea_rs::compile::output::") and "::remap_name_ids" in k]
+    if not remap:
+        raise E5Error("T4: Compilation::remap_name_ids not found")
+    adjusted = set()
+    for k in remap:
+        for blk in P.bodies[k]["blocks"]:
+            for st in blk["s"]:
+                d = st["d"]
+                if len(d) > 1:
+                    for e in d[1:]:
+                        if isinstance(e, str) and e.startswith("f:"):
+                            _, field, adt = e.split(":", 2)
+                            adjusted.add((adt.rsplit("::", 1)[-1], field))
+    minted = {}
+    n_src = 0
+    for key, b in sorted(P.bodies.items()):
+        if not key.startswith("fea_rs::compile::"):
+            continue
+        tainted = {}
+        for blk in b["blocks"]:
+            t = blk["t"]
+            if t["t"] == "call" and not blk["cl"]:
+                k = t["f"].get("k") or {}
+                if (k.get("res") or "").endswith("::add_anon_group") and len(t["d"]) == 1:
+                    tainted[t["d"][0]] = t["l"]
+                    n_src += 1
+        if not tainted:
+            continue
+        changed = True
+        while changed:
+            changed = False
+            for blk in b["blocks"]:
+                for st in blk["s"]:
+                    d = st["d"]
+                    rv = st["rv"]
+                    ops = [(o.get("m") or o.get("c") or [None])[0] for o in rv.get("o", [])]
+                    if rv.get("r") == "agg" and rv.get("ak") == "adt" and any(x in tainted for x in ops):
+                        adt = str(rv.get("adt", ""))
+                        if adt.startswith(("core::option::", "core::result::")):
+                            if len(d) == 1 and d[0] not in tainted:
+                                tainted[d[0]] = tainted[[x for x in ops if x in tainted][0]]
+                                changed = True
+                            continue
+                        names = rv.get("fn") or []
+                        for i, x in enumerate(ops):
+                            if x in tainted:
+                                fname = names[i] if i < len(names) else str(i)
+                                minted.setdefault((adt.rsplit("::", 1)[-1], fname), P.site_loc(key, st["l"]))
+                        continue
+                    if len(d) == 1 and d[0] not in tainted and rv.get("r") in ("use", "cast") and any(x in tainted for x in ops):
+                        tainted[d[0]] = tainted[[x for x in ops if x in tainted][0]]
+                        changed = True
+                    if len(d) > 1 and rv.get("r") in ("use", "cast") and any(x in tainted for x in ops):
+                        for e in d[1:]:
+                            if isinstance(e, str) and e.startswith("f:"):
+                                _, field, adt = e.split(":", 2)
+                                minted.setdefault((adt.rsplit("::", 1)[-1], field), P.site_loc(key, st["l"]))
+                t = blk["t"]
+                if t["t"] == "call" and not blk["cl"] and len(t["d"]) == 1 and t["d"][0] not in tainted:
+                    k = t["f"].get("k") or {}
+                    nm = k.get("res") or k.get("fn") or ""
+                    ops = [(o.get("m") or o.get("c") or [None])[0] for o in t["a"]]
+                    if any(x in tainted for x in ops) and (nm.startswith(("font_types::", "core::convert::", "core::option::", "core::clone::")) or nm.endswith(("::to_u16", "::into", "::from"))):
+                        tainted[t["d"][0]] = tainted[[x for x in ops if x in tainted][0]]
+                        changed = True
+    for (adt, field), loc in sorted(minted.items()):
+        ok = (adt, field) in adjusted
+        obl.append({"rule": "T4", "inst": f"{adt}.{field} receives a minted name id and is adjusted by remap_name_ids", "ok": ok})
+        if not ok:
+            findings.append({"rule": "T4", "key": f"T4|{adt}|{field}",
+                             "msg": f"{adt}.{field} is filled with a name id minted by NameBuilder::add_anon_group, but Compilation::remap_name_ids never adjusts that field: "
+                                    f"whenever the ids are shifted (the font already uses name ids >= 256, e.g. fvar instance names) it keeps the old id, which then names no record or the wrong one",
+                             "loc": loc, "detail": {}})
+    if n_src < 8 or len(adjusted) < 8:
+        raise E5Error(f"T4: too few minting sites ({n_src}) or adjusted fields ({len(adjusted)})")
+    return findings, obl, {"t4_mint_sites": n_src, "t4_minted_fields": len(minted), "t4_adjusted_fields": len(adjusted)}
